@@ -91,6 +91,19 @@ func (w *World) observe(n *Node, st *State, seed uint64) (out []obs) {
 	if n.isStumpy() {
 		return
 	}
+	if n.isMap() && !n.big() {
+		// the verifier snapshot handed out by the forest must be the same state
+		var sn u.Stump
+		if err, _ := guard(func() error { sn = n.mp.m.GetStump(); return nil }); err != nil {
+			add("roots", "getstump-panic", "GetStump: %v", err)
+			return
+		}
+		if sn.NumLeaves != st.N || !eqHashes(sn.Roots, L.Roots) {
+			add("roots", "getstump", "GetStump reports %d leaves / %d roots that differ from GetRoots and the model (N=%d)", sn.NumLeaves, len(sn.Roots), st.N)
+			return
+		}
+		w.fp.track("stump-roots", sn.Roots)
+	}
 	if n.isMap() {
 		// the allocated height must be able to hold the leaves
 		if rowsFor(st.N) > n.mp.Rows() {
